@@ -9,11 +9,20 @@ LEVEL = "proof"
 LEAN_IMPORTS = ["WM.Props.C12"]
 THEOREMS = ["WM.C12.supports", "WM.C12.block", "WM.C12.max", "WM.C12.leaf_bound", "WM.C12.skip_keeps",
             "WM.C12.skip_keeps_mem", "WM.C12.replace_keeps_partial", "WM.C12.replace_keeps_boost_counterexample",
-            "WM.C12.bm25_mono", "WM.C12.tfidf_mono", "WM.C12.freq_mono"]
+            "WM.C12.bm25_mono", "WM.C12.tfidf_mono", "WM.C12.freq_mono", "WM.C12.coord_bound", "WM.C12.coord_threshold", "WM.C12.bm25_leaf_bound"]
 PARTIAL = {"WM.C12.replace_keeps_partial": "replace(q) is proved to keep every entry above q for trees whose boosts lie in "
                                            "(0, 1]; for boosts > 1 WrappingMatcher.replace hands the threshold to the "
                                            "child unscaled and the statement is false (replace_keeps_boost_counterexample, "
-                                           "known finding; tests/test_quality.py pins the behaviour)"}
+                                           "known finding; tests/test_quality.py pins the behaviour)",
+           "WM.C12.bm25_mono": "narrower than 'all weighting models and parameters': BM25F is proved monotone (hence bm25_leaf_bound) "
+                               "for idf >= 0, avgfl > 0, 0 <= B <= 1, K1 >= 0 - BM25F(B=..., K1=...) accepts any numbers without "
+                               "validation; TF_IDF for idf >= 0; weights and scores are assumed non-negative (W0/WQ); over Rat the "
+                               "quotient 0/0 is 0 where Python raises ZeroDivisionError (tf = 0 with K1 = 0, unreachable for real "
+                               "postings); Reverse, PL2, DFree are decided by the end-to-end walks only",
+           "WM.C12.max": "quality providers covered: every class of the C11 model incl. MultiMatcher (max over the remaining "
+                         "segments) and ArrayUnionMatcher (max of the buffered part and the boosted sum of the active sub-matchers; "
+                         "positive scores and boost assumed). CoordMatcher: only its formulas are proved (coord_bound, "
+                         "coord_threshold), the class is walked end-to-end; PreloadedUnionMatcher: differential programs only"}
 RULE = ("matcher trees (depth <= 3) over ListMatchers and real W3LeafMatchers (blocklimit 1..4); walks of <= 14 "
         "next/skip_to/skip_to_quality/replace calls with thresholds taken from the scores present (0, negative, "
         "equal to a score, between scores, above the maximum); after every call block_quality >= score, max_quality >= "
@@ -24,7 +33,7 @@ ASSUMPTIONS = ["exact streams: dyadic weights/boosts, Frequency weighting (float
                "tree, relative tolerance 1e-9, thresholds kept 0.1% away from attainable scores"]
 TRUSTED = ["real-analysis monotonicity of the log-based models is not proved: PL2/DFree are decided by the end-to-end run"]
 
-KINDS = list(G.BIN) + list(G.UN)
+KINDS = list(G.BIN) + list(G.UN) + ["multi"]
 WEIGHTINGS = [("tfidf",), ("bm25", 0.75, 1.2), ("bm25", 0.0, 2.0), ("bm25", 1.0, 0.5), ("pl2", 1.0), ("pl2", 7.0),
               ("reverse", ("bm25", 0.75, 1.2)), ("reverse", ("freq",)), ("multi", ("bm25", 0.75, 1.2), ("tfidf",))]
 
@@ -56,13 +65,15 @@ def _run_exact(args):
             m = G.build_real(t, rix)
             res = G.e2e_quality(rng, m, den)
         except G.Hang:
-            return ("does-not-terminate", {}, [], t[0], None)
+            return ("does-not-terminate", {}, [], t[0], None, [])
         except Exception as e:  # noqa
-            return ("raises " + G.err_name(e), {}, [], t[0], None)
+            return ("raises " + G.err_name(e), {}, [], t[0], None, [])
         if res is None:
-            return ("ok", None, None, t[0], None)
+            return ("ok", None, None, t[0], None, [])
         kind, detail, ops = res
-        # classify: does the failure disappear when WrappingMatcher.replace scales the threshold?
+        # classify, first half: does the failure disappear when WrappingMatcher.replace scales the threshold?
+        # (second half in exact_stream: the pinned code, i.e. the Lean model, must fail on the same walk too -
+        # otherwise a regression in some other replace() below a boost > 1 would hide behind the finding)
         cls = None
         if G.max_boost(t) > 1 and any(o[0] == "replace" and o[1] for o in ops):
             with G.patched_wrapping_replace():
@@ -72,10 +83,20 @@ def _run_exact(args):
                     again = ("error", {}, [])
             if again is None:
                 cls = SIG_BOOST
-        return (kind, detail, [G.op_sexp(o) for o in ops], t[0], cls)
+        return (kind, detail, [G.op_sexp(o) for o in ops], t[0], cls, ops)
     finally:
         if rix:
             rix.close()
+
+
+def model_fails_too(ctx, tree_text, den_text, ops):
+    """run the failing walk on the Lean model (= the pinned code): True if it fails there as well"""
+    den = [(i, float(s)) for i, s in G.parse_den(den_text)]
+    try:
+        res = G.e2e_quality(random.Random(0), G.ModelMatcher(ctx.driver.ask1, tree_text, plan=ops), den, fixed_ops=ops)
+    except G.ModelError:
+        return True
+    return res is not None
 
 
 def exact_stream(ctx, name, mode, n, depth):
@@ -87,10 +108,13 @@ def exact_stream(ctx, name, mode, n, depth):
     for s, text, d, res in zip(seeds, texts, dens, results):
         if res is None:
             continue
-        kind, detail, ops, root, cls = res
+        kind, detail, ops, root, cls, raw = res
         ctx.case(("e2e", text, tuple(ops or ())), nontrivial=text.count("(") > 3 and d != "()")
         ctx.stat("e2e:%s:cases" % name)
         if kind != "ok":
+            if cls == SIG_BOOST and not model_fails_too(ctx, text, d, raw):
+                cls = None
+                ctx.stat("boost>1:not-confirmed-by-model")
             sig = cls or ("C12:%s:%s" % (kind, root))
             ctx.violation(sig, {"stream": name, "seed": s, "mode": mode, "depth": depth, "tree": text, "ops": ops},
                           d, detail, "quality operation contradicts the list model: " + kind)
@@ -106,7 +130,7 @@ def _run_weighting(args):
     spec = G.gen_index_spec(rng, 4, weighting=w, deleted=(rng.random() < 0.2))
     rix = G.RealIndex(spec)
     try:
-        t = G.gen_tree(rng, depth, [k for k in KINDS if k != "inverse"], lambda r: ("term", r.randrange(len(spec.lists))),
+        t = G.gen_tree(rng, depth, [k for k in KINDS if k not in ("inverse", "multi")], lambda r: ("term", r.randrange(len(spec.lists))),
                        boosts=(0.5, 1.0, 1.0, 0.25))
         try:
             with G.watchdog():
@@ -138,6 +162,142 @@ def weighting_stream(ctx, n, depth):
 
 
 # ------------------------------------------------------------------------------------------------
+# CoordMatcher (Or(..., scale=s)): not in the Lean model; its score is the child's score pushed through the
+# coordination formula, its bounds are that formula at "all terms match".  Oracle: exhaustive stepping.
+
+SIG_COORD = "CoordMatcher:threshold-not-converted-and-terms-recounted-after-replace"
+# (no DisjunctionMax below a CoordMatcher in the random stream: see coord_dismax_demo)
+COORD_KINDS = ["union", "union", "union", "andmaybe", "inter"]
+
+
+def coord_repaired():
+    """does the tree under test carry the repairs of CoordMatcher (threshold conversion)?"""
+    from whoosh.matching import CoordMatcher
+    return "skip_to_quality" in CoordMatcher.__dict__
+
+
+def _coord_build(t, rix, sc, counter):
+    from whoosh import matching as M
+    from whoosh.scoring import WeightScorer
+    k = t[0]
+    if k == "null":
+        return M.NullMatcher()
+    if k == "list":
+        counter[0] += 1
+        ws = [w * sc for w in t[2]]
+        return M.ListMatcher(list(t[1]), ws, scorer=WeightScorer(max(ws) if ws else 0.0), term=("f", "l%d" % counter[0]))
+    if k == "term":
+        return rix.leaf(t[1])
+    cls = {"union": M.UnionMatcher, "dismax": M.DisjunctionMaxMatcher, "inter": M.IntersectionMatcher,
+           "andmaybe": M.AndMaybeMatcher}[k]
+    return cls(_coord_build(t[1], rix, sc, counter), _coord_build(t[2], rix, sc, counter))
+
+
+def _run_coord(seed):
+    from whoosh import matching as M
+    rng = random.Random(seed)
+    rix = None
+    try:
+        if rng.random() < 0.5:
+            # small dyadic list weights: the coordination bonus lifts a document above its raw score
+            def leaf(r):
+                g = G.gen_list(r)
+                return ("list", g[1], g[2], 1)
+            sc = rng.choice([1.0, 0.125, 0.03125])
+            w = ("list", sc)
+        else:
+            w = rng.choice([("freq",), ("tfidf",), ("bm25", 0.75, 1.2)])
+            spec = G.gen_index_spec(rng, 4, weighting=w)
+            rix = G.RealIndex(spec)
+            sc = 1.0
+
+            def leaf(r):
+                return ("term", r.randrange(len(spec.lists)))
+        t = G.gen_tree(rng, 2, COORD_KINDS, leaf)
+        scale = rng.choice([0.9, 0.5, 0.2, 2.0])
+
+        def mk():
+            return M.CoordMatcher(_coord_build(t, rix, sc, [0]), scale=scale)
+        try:
+            if t[0] == "null":
+                return (w, "ok", None, None, t, scale)
+            with G.watchdog():
+                den = G.drain(mk())
+            res = G.e2e_quality(rng, mk(), den, tol=1e-9)
+        except G.Hang:
+            return (w, "does-not-terminate", {}, [], t, scale)
+        except Exception as e:  # noqa
+            return (w, "raises " + G.err_name(e), {}, [], t, scale)
+        if res is None:
+            return (w, "ok", None, None, t, scale)
+        return (w, res[0], res[1], [G.op_sexp(o) for o in res[2]], t, scale)
+    finally:
+        if rix is not None:
+            rix.close()
+
+
+SIG_COORD_DISMAX = "CoordMatcher:DisjunctionMax-child:score-depends-on-pruning"
+
+
+def coord_dismax_demo(ctx):
+    """CoordMatcher counts the sub-matchers standing on the document; DisjunctionMaxMatcher.skip_to_quality/replace
+    move a side whose own quality is below the threshold off the document (harmless for the maximum), so a
+    document *above* the threshold is rescored.  Fixed input; recorded finding."""
+    from whoosh import matching as M
+    from whoosh.scoring import WeightScorer
+
+    def mk():
+        a = M.ListMatcher([1, 5], [1.0, 1.0], scorer=WeightScorer(1.0), term=("f", "a"))
+        b = M.ListMatcher([1, 7], [4.0, 4.0], scorer=WeightScorer(4.0), term=("f", "b"))
+        return M.CoordMatcher(M.DisjunctionMaxMatcher(a, b), scale=0.5)
+    fresh = mk().score()
+    m = mk()
+    m.skip_to_quality(1.5)
+    r = mk().replace(1.5)
+    got = {"fresh": fresh, "after skip_to_quality(1.5)": m.score() if m.is_active() else None,
+           "after replace(1.5)": r.score() if r.is_active() else None}
+    ctx.case(("coord-dismax",), nontrivial=True)
+    if got["after skip_to_quality(1.5)"] != fresh or got["after replace(1.5)"] != fresh:
+        ctx.violation(SIG_COORD_DISMAX, {"stream": "coord-dismax"}, "score of document 1 independent of the path", got,
+                      "CoordMatcher over DisjunctionMaxMatcher: a document above the threshold is rescored by pruning")
+
+
+def coord_stream(ctx, n):
+    rng = ctx.rng("e2e:coord")
+    seeds = [rng.getrandbits(48) for _ in range(n)]
+    repaired = coord_repaired()
+    for s, (w, kind, detail, ops, t, scale) in zip(seeds, ctx.pmap(_run_coord, seeds, chunksize=max(1, n // 64))):
+        ctx.case(("coord", s), nontrivial=G.tree_size(t) > 1)
+        ctx.stat("coord:" + w[0])
+        if kind != "ok":
+            # on a tree without the repairs every failure of this stream is the recorded finding
+            sig = ("C12:coord:%s:%s" % (kind, t[0])) if repaired else SIG_COORD
+            ctx.violation(sig, {"stream": "coord", "seed": s, "weighting": w, "tree": repr(t), "scale": scale, "ops": ops},
+                          None, detail, "CoordMatcher: quality bound/skip/replace contradicts exhaustive stepping: " + kind)
+
+
+# ------------------------------------------------------------------------------------------------
+# quality reads of an exhausted MultiMatcher below a DisjunctionMaxMatcher that is still active
+
+SIG_MULTI_EXHAUSTED = "MultiMatcher.max_quality/block_quality:exhausted:ValueError/IndexError"
+
+
+def multi_exhausted_demo(ctx):
+    from whoosh import matching as M
+    from whoosh.scoring import WeightScorer
+    mm = M.MultiMatcher([M.ListMatcher([1], [1.0], scorer=WeightScorer(1.0))], [0], WeightScorer(1.0))
+    dm = M.DisjunctionMaxMatcher(mm, M.ListMatcher([1, 5], [2.0, 3.0], scorer=WeightScorer(3.0)))
+    dm.next()
+    ctx.case(("multi-exhausted",), nontrivial=True)
+    got = {"is_active": dm.is_active(), "id": dm.id()}
+    for name in ("max_quality", "block_quality"):
+        got[name] = G.guarded(getattr(dm, name), conv=lambda x: x)
+    if got["max_quality"] != 3.0 or got["block_quality"] != 3.0:
+        ctx.violation(SIG_MULTI_EXHAUSTED, {"stream": "multi-exhausted"}, {"max_quality": 3.0, "block_quality": 3.0}, got,
+                      "DisjunctionMaxMatcher on document 5 with an exhausted MultiMatcher side: quality reads raise")
+
+
+# ------------------------------------------------------------------------------------------------
 # weights that are not float32 numbers (field_boost = 0.1): the block header keeps the double
 
 def float32_stream(ctx):
@@ -166,15 +326,22 @@ def float32_stream(ctx):
 
 def run(ctx):
     C11.corpus_replay(ctx, "C12")
-    n = ctx.budget(2400, 24000)
+    n = ctx.budget(2000, 24000)
     C11.correspondence(ctx, "quality-list", "list", n, KINDS, 3, 30, qbias=3)
     C11.correspondence(ctx, "quality-w3", "w3", n // 3, KINDS, 3, 30, qbias=3)
     C11.correspondence(ctx, "quality-mixed", "mixed", n // 3, KINDS, 3, 30, qbias=3)
+    C11.correspondence(ctx, "quality-multi", "mixed", n // 4, ["multi", "multi", "multi", "union", "boost", "andmaybe"], 2, 30,
+                       qbias=3)
     exact_stream(ctx, "list", "list", n, 3)
     exact_stream(ctx, "w3", "w3", n // 2, 3)
     exact_stream(ctx, "mixed", "mixed", n // 2, 3)
+    C11.combo_correspondence(ctx, n // 4)
     C11.extra_stream(ctx, "C12", n // 4, quality=True)
+    C11.combo_e2e(ctx, "C12", n // 4, quality=True)
     weighting_stream(ctx, n // 2, 2)
+    coord_stream(ctx, n // 2)
+    coord_dismax_demo(ctx)
+    multi_exhausted_demo(ctx)
     float32_stream(ctx)
     G.cleanup_tmp()
 
@@ -187,6 +354,17 @@ def replay(ctx, rec):
         if stream == "weightings":
             w, kind, detail, ops, t, spec = _run_weighting((case["seed"], case["depth"]))
             res = None if kind == "ok" else (kind, detail)
+        elif stream == "coord":
+            w, kind, detail, ops, t, scale = _run_coord(case["seed"])
+            res = None if kind == "ok" else (kind, detail)
+        elif stream == "multi-exhausted":
+            before = len(ctx.violations)
+            multi_exhausted_demo(ctx)
+            res = ctx.violations[before:] or None
+        elif stream == "coord-dismax":
+            before = len(ctx.violations)
+            coord_dismax_demo(ctx)
+            res = ctx.violations[before:] or None
         elif stream == "float32":
             before = len(ctx.violations)
             float32_stream(ctx)
@@ -203,19 +381,23 @@ def replay(ctx, rec):
 
 
 MANIFEST = {
-    "level_text": "Lean 4 theorems, unbounded (every tree shape of the C11 model, every state and threshold incl. 0, negative, "
-                  "above the maximum): block_quality() >= current score, for a posting list >= every entry of the block "
-                  "(leaf_bound, any monotone scorer); max_quality() >= every remaining score; skip_to_quality(q) and "
-                  "replace(q) leave the part of the result list above q unchanged and invent nothing (skip_keeps, "
-                  "replace_keeps_partial); BM25F, TF_IDF and Frequency are monotone over Rat (bm25_mono, tfidf_mono, freq_mono). "
-                  "Tied to the code by quality-heavy differential programs and an end-to-end walk of the real classes under "
-                  "every shipped weighting (Frequency exact against the Lean lists; TF_IDF, BM25F, PL2, Reverse, Multi against "
-                  "exhaustive stepping of the same tree).",
+    "level_text": "Lean 4 theorems, unbounded (every tree shape of the C11 model, MultiMatcher and ArrayUnionMatcher included, every state and "
+                  "threshold incl. 0, negative, above the maximum): block_quality() >= current score, for a posting list >= every "
+                  "entry of the block (leaf_bound, any monotone scorer); max_quality() >= every remaining score; "
+                  "skip_to_quality(q) and replace(q) leave the part of the result list above q unchanged and invent nothing "
+                  "(skip_keeps, replace_keeps_partial); BM25F, TF_IDF and Frequency are monotone over Rat (bm25_mono, tfidf_mono, "
+                  "freq_mono). Tied to the code by quality-heavy differential programs (which continue semantically after a "
+                  "reshaping replace(q): both sides must keep the same entries above the largest threshold) and an end-to-end "
+                  "walk of the real classes under every shipped weighting (Frequency exact against the Lean lists; TF_IDF, "
+                  "BM25F, PL2, Reverse, Multi against exhaustive stepping of the same tree), of ArrayUnion/MultiMatcher over "
+                  "modelled sub-matchers and of CoordMatcher (Or(..., scale)) against exhaustive stepping; the coordination formula "
+                  "and the threshold conversion of the repaired CoordMatcher are proved over Rat (coord_bound, coord_threshold).",
     "level_note": "Partial: replace(q) is proved for boosts in (0,1]; for boosts > 1 it is false of the code (proved "
-                  "counterexample, known finding). Scores are assumed non-negative (Reverse weighting is outside the theorems "
-                  "and no longer claims quality). PL2/DFree are not modelled (log-based; decided by the end-to-end run; DFree "
-                  "cannot even be constructed on the pinned tree). Float rounding is not modelled (Rat); the float32 block "
-                  "max weight defect of the codec is a known finding. Trusted: Lean kernel, compiled driver, the hand-written "
-                  "model (sampled correspondence), block statistics as read back from the real W3 reader.",
+                  "counterexample, known finding; a failing walk is filed under it only if the corrected wrapper passes it AND "
+                  "the Lean model of the pinned code fails on it too). Scores are assumed non-negative (Reverse weighting is "
+                  "outside the theorems and no longer claims quality). PL2/DFree are not modelled (log-based; decided by the "
+                  "end-to-end run). ArrayUnionMatcher: positive scores and boost assumed; PreloadedUnion: executable model and "
+                  "differential programs, no theorems; CoordMatcher: end-to-end only. Float rounding is not modelled (Rat). Trusted: Lean kernel, compiled "
+                  "driver, the hand-written model (sampled correspondence), block statistics as read back from the real W3 reader.",
     "technique": "machine-checked proof in Lean 4 over an executable model + differential correspondence check against the implementation",
 }
